@@ -848,7 +848,11 @@ def parse_tree_to_objgraph(
         """
         try:
             if metaclass_of_grammar_rule is None:
-                metaclass_of_grammar_rule = metamodel[model_obj.__class__.__name__]
+                # (by fully qualified name: a plain class name is only
+                # visible from the main grammar and its direct imports)
+                metaclass_of_grammar_rule = metamodel[
+                    getattr(model_obj, "_tx_fqn", model_obj.__class__.__name__)
+                ]
         except KeyError as e:
             raise TextXSemanticError(
                 f'Unknown meta-class "{model_obj.__class__.__name__}".'
